@@ -909,7 +909,7 @@ class FlippedEncoding(LazyIndexMap):
         shape = self.shape
         for a in self._axes:
             indices[:, a] *= -1
-            indices[:, a] += shape
+            indices[:, a] += shape[a] - 1
         return indices
 
     def _from_base_indices(self, base_indices):
@@ -927,25 +927,20 @@ class FlippedEncoding(LazyIndexMap):
         return dense
 
     def mask(self, mask):
-        if not isinstance(mask, Encoding):
-            mask = DenseEncoding(mask)
-        mask = mask.flip(self._axes)
-        return self._data.mask(mask).flip(self._axes)
+        mask = mask.dense if isinstance(mask, Encoding) else mask
+        return self.gather_nd(np.column_stack(np.where(mask)))
 
     def copy(self):
         return FlippedEncoding(self._data.copy(), self._axes)
 
     def flip(self, axis=0):
         if isinstance(axis, np.ndarray):
-            if axis.size == 1:
-                axis = (axis.item(),)
-            else:
-                axis = tuple(axis)
+            axes = tuple(axis.reshape(-1).tolist())
         elif isinstance(axis, int):
             axes = (axis,)
         else:
             axes = tuple(axis)
-        return _flipped(self, self._axes + axes)
+        return _flipped(self._data, self._axes + axes)
 
     def _flip(self, axes):
         raise RuntimeError("Should not be here")
